@@ -43,6 +43,11 @@
   * `bare_ack_not_returned`, `bare_ack_waits`
                          — acknowledgements of THIS transaction are skipped, any number of them; then the
                            (wrapped or plain) matching reply is returned, completion code and data exactly
+  * `retransmission_reply_returned`, `retransmission_error_reported`, `retransmission_budget`
+                         — (`retryBridged`) any number of attempts lost (datagram, answer, or the forwarded reply
+                           behind acknowledgements) within the budget max_retries + 1: the answer to the
+                           retransmission - built by the bridges from what they RECEIVED - is unwrapped / waited
+                           for / reported exactly like the answer to a first attempt; only the budget ends in RetryError
   * `unbridged_reply_returned`, `unbridged_reply_asShipped_counterexample`
                          — a request that is not bridged never unwraps: every intact reply is returned, command
                            34h included; as shipped `Hpm.get_upgrade_status()` ends in IndexError
@@ -295,6 +300,66 @@ theorem bare_ack_waits (seq : Nat) (req : Hdr) (fl : Flags) (acks : List (List N
       | nil => exact absurd rfl hne
       | cons x xs => simp only [afterUnwrap, afterFilter_hit req fl _ hn hr]
 
+/-- RETRANSMISSIONS.  Any number of attempts of the request get lost - the datagram, the answer, or the
+forwarded reply behind acknowledgements that did arrive - and end in a read time-out; as long as one
+transmission of the budget (`max_retries + 1`) is left, the answer to the retransmission is treated exactly
+like the answer to a first attempt: the chain of bridges answers what it RECEIVED, the retransmission carries
+the sequence number of the request (`bridge_header` and `header` are built once), so any number of bare
+acknowledgements is skipped and the wrapped (any depth) or plain matching reply is returned, completion code
+and data exactly. -/
+theorem retransmission_reply_returned (seq : Nat) (req : Hdr) (fl : Flags) (lost : List (List (List Nat)))
+    (budget : Nat) (acks : List (List Nat)) (layers : List Hdr) (reply : List Nat) (rest : List (List Nat))
+    (later : List (List (List Nat))) (hb : lost.length < budget) (hn : req.netfn % 2 = 0)
+    (hlost : ∀ att ∈ lost, ∀ a ∈ att, AckOf seq a)
+    (ha : ∀ a ∈ acks, AckOf seq a) (hl : ∀ h ∈ layers, SendMsgOf seq h)
+    (hr : isReplyTo req reply fl) (hc : ¬ NamesSendMsgRsp reply) :
+    retryBridged .repaired (some (bridgeHdr seq)) req fl budget
+        (lost ++ (acks ++ wrapReply layers reply :: rest) :: later) = some (.ok (replyData reply)) := by
+  induction lost generalizing budget with
+  | nil =>
+    cases budget with
+    | zero => simp at hb
+    | succ n =>
+      simp only [List.nil_append, retryBridged, bare_ack_waits seq req fl acks layers reply rest hn ha hl hr hc]
+  | cons att atts ih =>
+    cases budget with
+    | zero => simp at hb
+    | succ n =>
+      simp only [List.cons_append, retryBridged,
+        bare_ack_not_returned seq req fl att (hlost att List.mem_cons_self)]
+      exact ih n (by simp at hb; omega) (fun x hx => hlost x (List.mem_cons_of_mem _ hx))
+
+/-- … and the failing Send Message of a retransmitted request is reported with its completion code -/
+theorem retransmission_error_reported (seq : Nat) (req : Hdr) (fl : Flags) (lost : List (List (List Nat)))
+    (budget : Nat) (f : List Nat) (c : Nat) (rest : List (List Nat)) (later : List (List (List Nat)))
+    (hb : lost.length < budget) (hlost : ∀ att ∈ lost, ∀ a ∈ att, AckOf seq a)
+    (hf : recvBridged .repaired (some (bridgeHdr seq)) req fl (f :: rest) = some (.ccError c)) :
+    retryBridged .repaired (some (bridgeHdr seq)) req fl budget (lost ++ (f :: rest) :: later) =
+      some (.ccError c) := by
+  induction lost generalizing budget with
+  | nil =>
+    cases budget with
+    | zero => simp at hb
+    | succ n => simp only [List.nil_append, retryBridged, hf]
+  | cons att atts ih =>
+    cases budget with
+    | zero => simp at hb
+    | succ n =>
+      simp only [List.cons_append, retryBridged,
+        bare_ack_not_returned seq req fl att (hlost att List.mem_cons_self)]
+      exact ih n (by simp at hb; omega) (fun x hx => hlost x (List.mem_cons_of_mem _ hx))
+
+/-- the budget is the only limit: `max_retries + 1` silent attempts end in RetryError -/
+theorem retransmission_budget (seq : Nat) (req : Hdr) (fl : Flags) (lost : List (List (List Nat)))
+    (later : List (List (List Nat))) (hlost : ∀ att ∈ lost, ∀ a ∈ att, AckOf seq a) :
+    retryBridged .repaired (some (bridgeHdr seq)) req fl lost.length (lost ++ later) = some .retryError := by
+  induction lost with
+  | nil => simp [retryBridged]
+  | cons att atts ih =>
+    simp only [List.cons_append, List.length_cons, retryBridged,
+      bare_ack_not_returned seq req fl att (hlost att List.mem_cons_self)]
+    exact ih (fun x hx => hlost x (List.mem_cons_of_mem _ hx))
+
 /-- a request that is NOT bridged never unwraps anything: every intact reply to it is returned,
 whatever its command — 34h included (`Hpm.get_upgrade_status()` over RMCP). -/
 theorem unbridged_reply_returned (req : Hdr) (fl : Flags) (reply : List Nat) (hn : req.netfn % 2 = 0)
@@ -503,6 +568,22 @@ example : recvBridged .repaired (some (bridgeHdr 5)) hpmReq {}
   bare_ack_waits 5 hpmReq {} [wrapLayer hpmLayer 0 []] [hpmLayer] (mkReply hpmReq [0, 9]) [] (by decide)
     (by intro a ha; simp at ha; exact ⟨[], hpmLayer, by simp, by decide, ha⟩)
     (by intro h hh; simp at hh; subst hh; decide) (by decide) (by decide)
+/-- max_retries = 2: the first datagram is lost, the second is acknowledged but the forwarded reply is lost, the
+third is acknowledged and answered -/
+example : retryBridged .repaired (some (bridgeHdr 5)) hpmReq {} 3
+    [[], [wrapLayer hpmLayer 0 []], [wrapLayer hpmLayer 0 [], wrapReply [hpmLayer] (mkReply hpmReq [0, 9])]] =
+      some (.ok [0, 9]) :=
+  retransmission_reply_returned 5 hpmReq {} [[], [wrapLayer hpmLayer 0 []]] 3 [wrapLayer hpmLayer 0 []] [hpmLayer]
+    (mkReply hpmReq [0, 9]) [] [] (by decide) (by decide)
+    (by intro att hatt a ha; simp at hatt; rcases hatt with h | h <;> subst h <;> simp at ha
+        exact ⟨[], hpmLayer, by simp, by decide, ha⟩)
+    (by intro a ha; simp at ha; exact ⟨[], hpmLayer, by simp, by decide, ha⟩)
+    (by intro h hh; simp at hh; subst hh; decide) (by decide) (by decide)
+/-- the answer to a retransmission that carried ANOTHER sequence number (6) than the request (5) would not be
+unwrapped: the sequence number has to stay the same over the retransmissions -/
+example : retryBridged .repaired (some (bridgeHdr 5)) hpmReq {} 2
+    [[], [wrapReply [{ hpmLayer with seq := 6 }] (mkReply { hpmReq with seq := 6 } [0, 9])]] =
+      some (.pyError "unmatched-frame:C04") := by decide
 /-- a corrupted completion-code byte of a wrapper (00h -> 83h): dropped, not raised -/
 example : classifyRx .repaired (some (bridgeHdr 5)) hpmReq {}
     ((wrapReply [hpmLayer] (mkReply hpmReq [0, 9])).set 6 0x83) = .noise := by decide
